@@ -518,13 +518,12 @@ func (p Parameters) MaxBit(levelQ, levelP int) (c int) {
 	return
 }
 
-// BaseTwoDecompositionVectorSize returns ceil(bits(qi))/Base2Decomposition for each qi.
+// BaseTwoDecompositionVectorSize returns ceil(bits(qi)/Base2Decomposition) for each qi,
+// where bits(qi) is the bit length of qi (the digits must cover every value in [0, qi-1]).
 // If levelP > 0 or Base2Decomposition == 0, then returns 1 for all qi.
 func (p Parameters) BaseTwoDecompositionVectorSize(levelQ, levelP, Base2Decomposition int) (base []int) {
 
-	logqi := p.LogQi()
-
-	base = make([]int, len(logqi))
+	base = make([]int, len(p.qi))
 
 	if Base2Decomposition == 0 || levelP > 0 {
 		for i := range base {
@@ -532,7 +531,7 @@ func (p Parameters) BaseTwoDecompositionVectorSize(levelQ, levelP, Base2Decompos
 		}
 	} else {
 		for i := range base {
-			base[i] = (logqi[i] + Base2Decomposition - 1) / Base2Decomposition
+			base[i] = (bits.Len64(p.qi[i]) + Base2Decomposition - 1) / Base2Decomposition
 		}
 	}
 
